@@ -83,12 +83,12 @@ def replay_rows(inp):
     return bool(bad), {'mismatch': bad[:4]}
 
 
-def h_rows(flags, nm, nd=None, tie=False, extended=None, conf_kind='open', mask_assign='fork'):
+def h_rows(flags, nm, nd=None, tie=False, extended=None, conf_kind='open', mask_assign='fork', names=None):
     def run(part):
         std_assumptions(part)
         part.bounds = {'filters': len(flags), 'models': nm, 'distances': nd, 'flags': ''.join(map(str, flags)),
                        'ties': 'two models share identical fluxes' if tie else 'generic (ties possible at measure zero)',
-                       'extended': extended}
+                       'extended': extended, 'model_names': names or 'in increasing alphabetical order'}
         part.assumptions |= {"numpy.argsort: NaN last, stable for these sizes (insertion sort); numpy.argmin: first minimum",
                              "log10/ln uninterpreted (hash-consed per argument)"}
         fx = fitfix.Fit()
@@ -98,7 +98,7 @@ def h_rows(flags, nm, nd=None, tie=False, extended=None, conf_kind='open', mask_
 
         def body(c, rng=None):
             del snaps[:]
-            sc = Scenario(c, flags, nm, nd, conf_kind, rng)
+            sc = Scenario(c, flags, nm, nd, conf_kind, rng, names=names)
             if tie and nm >= 2:
                 raw = symnp._plain(sc.M)
                 raw[1] = raw[0].copy() if raw.ndim > 1 else raw[0]
@@ -178,10 +178,15 @@ def validate(part, body, n=3):
         except Exception as e:  # noqa: BLE001
             part.validation_failures.append("real fit raised %s" % e)
             continue
-        ok = [str(a) for a in real.model_name] == [str(a) for a in info.model_name]
-        for a, b in ((real.av, info.av), (real.sc, info.sc), (real.chi2, info.chi2), (real.model_fluxes, info.model_fluxes)):
-            bb = np.array(symnp._obj(su.value_of(b)).tolist(), dtype=float)
-            ok = ok and np.allclose(np.asarray(a, dtype=float), bb, rtol=1e-9, atol=1e-12, equal_nan=True)
+        # order must agree unless the exact chi2 values tie (then rounding noise ranks the real code's rows); values are matched by name
+        rn, sn = [str(a) for a in real.model_name], [str(a) for a in info.model_name]
+        sch = [x for x in symnp._obj(su.value_of(info.chi2)).tolist()]
+        ok = sorted(rn) == sorted(sn) and (rn == sn or len(set(sch)) < len(sch))
+        if ok:
+            perm = [sn.index(x) for x in rn]
+            for a, b in ((real.av, info.av), (real.sc, info.sc), (real.chi2, info.chi2), (real.model_fluxes, info.model_fluxes)):
+                bb = np.array(symnp._obj(su.value_of(b)).tolist(), dtype=float)[perm]
+                ok = ok and np.allclose(np.asarray(a, dtype=float), bb, rtol=1e-9, atol=1e-12, equal_nan=True)
         if ok:
             part.validated += 1
         else:
@@ -196,6 +201,11 @@ def configs(tier, seed):
             if nm == 4 and len(flags) > 2:
                 continue
             cfgs.append(Config('rows 2-D nm=%d flags=%s' % (nm, ''.join(map(str, flags))), h_rows(flags, nm), 3000))
+    # grids whose names are not in alphabetical order (the order of a package's parameter table is arbitrary)
+    cfgs.append(Config('rows 2-D nm=3 flags=14 names (m2, m10, m1)', h_rows((1, 4), 3, names=['m2', 'm10', 'm1']), 3000))
+    cfgs.append(Config('rows 2-D nm=2 flags=421 names reversed', h_rows((4, 2, 1), 2, names=['zz', 'aa']), 3000))
+    cfgs.append(Config('rows 3-D nm=2 nd=2 flags=41 names reversed', h_rows((4, 1), 2, 2, names=['zz', 'aa']), 3000))
+    cfgs.append(Config('rows 2-D tie nm=3 flags=14 names reversed', h_rows((1, 4), 3, tie=True, names=['c', 'b', 'a']), 3000))
     cfgs.append(Config('rows 2-D tie nm=2 flags=14', h_rows((1, 4), 2, tie=True), 1500))
     cfgs.append(Config('rows 2-D tie nm=3 flags=14', h_rows((1, 4), 3, tie=True), 3000))
     for flags in ([(4, 1)] if q else [(4, 1), (1, 3, 4)]):
